@@ -7,7 +7,10 @@ Case kinds: a reconstruction of one fresh (stack, config) pair (default); "cfg" 
 offset lists given to one SRRConfig object, denominators up to 30, against `SrrConfig.make` and the statement of
 offsets_setter_exact / srrconfig_roundtrip, driver op c09.config); "history" = reconstruct, change the SAME SRRLaser object
 (layer of `laser.data` replaced / edited in place, config replaced / changed by its setters), reconstruct again - both
-states are compared with the model/specification of the stack and config the object holds at that moment."""
+states are compared with the model/specification of the stack and config the object holds at that moment.  The changes include those of the ELEMENT SET and the sample dtype of the stack
+(`SRRLaser.rename / add / remove`, `laser.data` replaced by layers with other names / dtype / footprint / number of layers,
+`laser.data.append / pop`), the raster parameters of the config (another magnification) and writing into the arrays an earlier
+reconstruction returned; the stack the object should hold after them is computed by Lean (`Stack.apply`, driver op c09.stack)."""
 import copy
 import math
 import sys
@@ -23,6 +26,24 @@ NAMES = ["A", "B", "C"]
 FLAT_REL = 1e-12
 CFG_MAXDEN = 30  # config-only stream: denominators 1..30 (no reconstruction, so the lcm^2 growth does not matter)
 CFG_BATCH = 250  # offset lists per enumerated config-only case
+
+
+DTYPES = {"f8": "<f8", "f4": "<f4", "i8": "<i8", "i4": "<i4", "u2": "<u2"}  # sample dtypes of a stack (case key -> dtype.str)
+# bound on |token| for which token * scale (scale 1, 1/2, 1/4) is held exactly by a field of that dtype, with room for the exact
+# sum of up to 16 layers (np.mean of float32 layers adds in float32)
+DTYPE_LIMIT = {"<f8": 2**48, "<f4": 2**19, "<i8": 2**58, "<i4": 2**27, "<u2": 2**12}
+MAX_LAYERS = 16
+FLAT_REL32 = 2.0**-22  # np.mean of float32 layers is a float32
+SCALES = (1, 0.5, 0.25)
+
+
+def kind_of(dt):
+    return np.dtype(dt).kind
+
+
+def field_scale(dt, fscale):
+    """payload = token * scale: `fscale` for float fields (1, 1/2 or 1/4, all exact), 1 for integer fields"""
+    return fscale if kind_of(dt) == "f" else 1
 
 
 def pairs_ok(pairs):
@@ -70,24 +91,66 @@ def gen_cfg_pairs(rng, maxden=CFG_MAXDEN):
     return pairs
 
 
-def tokens(a):
-    """integer-valued floats -> ints (anything else stays a float and cannot equal a token)"""
-    return [int(v) if float(v).is_integer() else float(v) for v in np.asarray(a, dtype=np.float64).ravel()]
+def tok(v, scale=1):
+    """a sample back to its token: value / scale when that is an integer (anything else stays a float and cannot equal a token)"""
+    q = float(v) / scale
+    return int(q) if q.is_integer() else q
 
 
-def enc3(arr, names):
+def tokens(a, scale=1):
+    """integer-valued (after the division by the payload scale, a power of two) samples -> ints"""
+    return [tok(v, scale) for v in np.asarray(a, dtype=np.float64).ravel()]
+
+
+def per_field(arr, names, scales):
+    """(..., k) float64 array of value / scale, one slice per field"""
+    return np.stack([np.asarray(arr[n], dtype=np.float64) / sc for n, sc in zip(names, scales)], axis=-1)
+
+
+def enc3(arr, names, scales):
     """structured (R, C, n) array -> {"shape", "data"} with data[r][c][i] = [token per element]"""
     if arr.ndim != 3:
         return {"shape": list(arr.shape)}
-    per = np.stack([np.asarray(arr[n], dtype=np.float64) for n in names], axis=-1)
+    per = per_field(arr, names, scales)
     return {"shape": list(arr.shape), "data": [[[tokens(v) for v in row] for row in plane] for plane in per]}
 
 
-def enc2(arr, names):
+def enc2(arr, names, scales):
     if arr.ndim != 2:
         return {"shape": list(arr.shape)}
-    per = np.stack([np.asarray(arr[n], dtype=np.float64) for n in names], axis=-1)
+    per = per_field(arr, names, scales)
     return {"shape": list(arr.shape), "data": [[tokens(v) for v in row] for row in per]}
+
+
+def descr_of(dtype):
+    """the fields of a structured dtype as [name, dtype.str] pairs (what the model's `Stack.fields` holds)"""
+    if dtype.names is None:
+        return {"not-structured": str(dtype)}
+    return [[str(n), dtype.fields[n][0].str] for n in dtype.names]
+
+
+def make_layer(fields, rows, cols, data, fscale):
+    """the structured array of one layer: `data` = one tuple of tokens per pixel, row by row"""
+    a = np.empty((rows, cols), dtype=[(n, dt) for n, dt in fields])
+    for k, (n, dt) in enumerate(fields):
+        sc = field_scale(dt, fscale)
+        col = [px[k] * sc for px in data]
+        a[n] = np.array(col, dtype=np.dtype(dt) if kind_of(dt) != "f" else np.float64).reshape(rows, cols)
+    return a
+
+
+def payload_ok(fields, enc_layers, fscale):
+    """every token * scale is held exactly by its field's dtype (and small enough for exact sums over the layers)"""
+    for k, (_, dt) in enumerate(fields):
+        lim = DTYPE_LIMIT.get(dt)
+        if lim is None:
+            return False
+        for L in enc_layers:
+            for px in L["data"]:
+                v = px[k]
+                if abs(v) >= lim or (dt == "<u2" and v < 0):
+                    return False
+    return len(enc_layers) <= MAX_LAYERS
 
 
 def pick_element(enc, e):
@@ -101,7 +164,7 @@ def pick_element(enc, e):
     return {"shape": enc["shape"], "data": proj(enc["data"], len(enc["shape"]))}
 
 
-def flat_close(vals, rats):
+def flat_close(vals, rats, rel=FLAT_REL):
     """2-D list of floats against 2-D list of exact rationals"""
     if len(vals) != len(rats):
         return False
@@ -109,9 +172,20 @@ def flat_close(vals, rats):
         if len(rv) != len(rr):
             return False
         for v, q in zip(rv, rr):
-            if not fclose(float(v), unrat(q), FLAT_REL):
+            if not fclose(float(v), unrat(q), rel):
                 return False
     return True
+
+
+class StepRaised(Exception):
+    """a change of the object that the model performs raised in pewlib"""
+
+
+def real(fn, *a, **kw):
+    try:
+        return fn(*a, **kw)
+    except Exception as ex:
+        raise StepRaised(f"{type(ex).__name__}: {str(ex)[:200]}") from ex
 
 
 class C09(Prop):
@@ -133,11 +207,26 @@ class C09(Prop):
             "(subpixel_offsets rows, subpixels_per_pixel, warmup) and the to_array/from_array round trip are compared with the model's "
             "exact setter and the statement of offsets_setter_exact is evaluated on the reported rows; enumerated: every single offset "
             "n/d with d <= 30, n <= 2d, every two-offset list with denominators <= 12 and numerators below them. Reconstructions with a "
-            "denominator 10..12 on 1-2 line stacks at magnification 1 (feature recon:den>=10, ~3 %). Two-step histories on ONE SRRLaser "
-            "object (feature history, ~12 %): every observation of a reconstruction case, then one or two changes of the object "
-            "(a layer of laser.data replaced by a new array of the same shape, cells of a layer or a whole layer edited in place, the "
-            "config replaced or changed through its setters), then every observation again, compared with the model of the NEW stack "
-            "and config")
+            "denominator 10..12 on 1-2 line stacks at magnification 1 (feature recon:den>=10, ~3 %). Histories on ONE SRRLaser "
+            "object (feature history, ~18 % + 33 fixed ones in targeted()): every observation of a reconstruction case, then one to three "
+            "changes of the object, then every observation again (in a quarter of the multi-step histories also between the steps: "
+            "feature history:observed3x), compared with the model of the NEW stack and config. The changes: a layer of laser.data "
+            "replaced by a new array of the same shape, cells of a layer or a whole layer edited in place, the config replaced or "
+            "changed through its setters, its raster parameters assigned so that the magnification becomes another integer "
+            "(history:magnification-change); the ELEMENT SET changed (history:element-set-change, about half of the histories): "
+            "SRRLaser.rename (one name, all, a swap, a chain, a key naming nothing), SRRLaser.add (same or another sample dtype), "
+            "SRRLaser.remove (one name as str or list, several); laser.data replaced (as a list or item by item) by layers with another "
+            "sample dtype / payload scale (history:dtype-change), other names or number of elements, another footprint, another number "
+            "of layers; a layer appended / popped (history:layer-count-change); the arrays the earlier reconstructions returned "
+            "overwritten by the caller (history:scribble-on-returned-arrays). The stack after the changes is computed by Lean "
+            "(Stack.applyAll) from the first stack and the list of changes and also compared with laser.data. Sample dtypes "
+            "(features dtype:<f4 / <i8 / <i4 / <u2, dtype:mixed-fields; 25 % of the fresh reconstructions, half of the histories): "
+            "payload = token * scale with scale 1, 1/2 or 1/4 for float fields (payload:fractional: a float stack reconstructed "
+            "through an integer buffer would lose the fraction), tokens from 1, from beyond 2^32 (payload:beyond-2^32: a float64 / int64 "
+            "stack squeezed through float32 / int32 would change) or negative. Sizes beyond the usual (feature layers>5 / lines>6, ~3 %): "
+            "6..16 layers of 1-3 lines, 7..24 lines in one layer kind. The object is made by SRRLaser(...), by SRRLaser.from_list (float64 "
+            "stacks, feature ctor:from_list, ~8 %) or by SRRLaser.from_lasers followed by the assignment of the config (ctor:from_lasers, "
+            "~8 %). Besides get(layer=i) and get(layer=i, flat=True), get(element, layer=i) is read for every layer")
     trusted = [
         "'integer magnification' means spotsize/(speed*scantime) evaluates to an integer in float64 (DESIGN 6a); the driver computes "
         "that float64 value itself from the three inputs (PewModel/Srr.lean `fl`: round to nearest, ties to even, normal range) and the "
@@ -146,7 +235,8 @@ class C09(Prop):
         "is np.round (half-even) of the float64 quotient seconds/scantime, modelled exactly; the SPECIFICATION of the warm-up is half-even "
         "of the exact quotient - when the two can differ (quotient not a float64 and within |x|/2^53 of a tie, hypothesis of "
         "warmup_setter_determined, decided by the driver) the case is counted undetermined",
-        "np.mean over <= 5 integer-valued float64 layers is within 1e-12 relative of the exact mean (flat_is_mean is about the exact mean)",
+        "np.mean over <= 16 layers whose samples are integer multiples of 1/4 below 2^48 is within 1e-12 relative of the exact mean: the "
+        "float sum is exact, only the division rounds (flat_is_mean is about the exact mean)",
         "NumPy slicing, np.repeat, .T, np.zeros and slice assignment behave as documented (modelled step by step in PewModel/Srr.lean); "
         "assignment broadcasting of a length-1 axis is not modelled: for accepted configurations on crossed stacks it cannot occur "
         "(valid_implies_shapes_agree; re-checked on every accepted case: the model answering 'raises' where pewlib reconstructs is a reported difference)",
@@ -165,10 +255,24 @@ class C09(Prop):
         "by Lean from the INPUTS (constructor arguments, then the setter calls / set_equal_subpixel_offsets / replacement made on the "
         "object, `ops`), never from what the implementation reports; the implementation's getters (warmup, magnification, "
         "subpixel_offsets, subpixels_per_pixel) and its array form are compared with that configuration too (impl-vs-model)",
-        "history cases change the stack only through the public list `laser.data` (item assignment of a same-shape, same-dtype array, "
-        "or element assignment into a layer) and the configuration only through `laser.config` (assignment of a new SRRConfig, its "
-        "`subpixel_offsets` / `warmup` setters, `set_equal_subpixel_offsets`); every reconstruction is required to follow the stack and "
-        "config the object holds when it is called ('for every stack ... and every accepted configuration')",
+        "history cases change the stack only through the public interface: the list `laser.data` (assignment of the list or of an item, "
+        "append, pop, element assignment into a layer), `SRRLaser.rename / add / remove`; and the configuration only through "
+        "`laser.config` (assignment of a new SRRConfig, its `subpixel_offsets` / `warmup` setters, `set_equal_subpixel_offsets`, "
+        "assignment of spotsize / speed / scantime); every reconstruction is required to follow the stack and config the object holds "
+        "when it is called ('for every stack ... and every accepted configuration'); no state of an earlier call is part of the "
+        "specification (Lean's krisskross is a function of the stack and the configuration alone)",
+        "all layers of a stack share one structured dtype; a sample is token * scale, held exactly by its field's dtype (checked inside "
+        "evaluate for the stack Lean computes: a case whose tokens do not fit is hypothesis-excluded); steps a shrinker could make "
+        "meaningless (a name that is not there, a duplicate, nothing left after remove, pop below two layers... = Lean's Stack.apply "
+        "answers none) are hypothesis-excluded before anything is done to the object",
+        "get(flat=True) WITHOUT an element stores np.mean in a structured array of the stack's own dtype, so for an INTEGER field the "
+        "mean is truncated: the structured flat image of integer fields is not compared (feature 'flat(structured) of an integer "
+        "field...'); get(element, flat=True) of the same field returns the float64 mean and IS compared; see notes/TC09.md",
+        "np.mean of float32 layers is a float32: the flat image of a '<f4' field is compared at 2^-22 relative",
+        "a history step that replaces laser.data by layers with OTHER element names also assigns the public dict laser.calibration "
+        "(one default Calibration per new name), as a caller has to: SRRLaser.remove pops the removed names from that dict",
+        "a change of the stack that the model of srr.py performs (Stack.apply answers some) but pewlib raises on is reported as a "
+        "difference between model and code (feature history:step-raises), not as an internal error",
         "config-only cases outside the hypotheses of offsets_setter_exact (empty list, denominator < 1, negative numerator) or whose "
         "lcm * numerator does not fit 2^60 are counted as hypothesis-excluded, never compared",
         "a change of the array LAYOUT (field names, order, shape) that keeps from_array(to_array(c)) = c is reported as an "
@@ -195,14 +299,56 @@ class C09(Prop):
                     return case
         elif t < 0.26:
             return self.gen_cfg_only(rng)
-        elif t < 0.38:
+        elif t < 0.44:
             return self.gen_history(rng)
-        elif t < 0.41:
+        elif t < 0.47:
             return self.gen_bigden(rng)
+        elif t < 0.50:
+            return self.gen_sizes(rng)
         case = gen_srr(rng, max_vox=9000 if tier == "quick" else 16000, force_valid=False)
         case["nel"] = rng.choice([1, 1, 2, 3])
         case["element"] = rng.randrange(case["nel"])
+        self.gen_payload(rng, case, plain=0.75)
+        self.gen_ctor(rng, case)
         return case
+
+    def gen_ctor(self, rng, case):
+        """how the object is made: SRRLaser(...) mostly, SRRLaser.from_list (float64 stacks) or SRRLaser.from_lasers"""
+        r = rng.random()
+        if r < 0.08 and case.get("dtype", "f8") == "f8":
+            case["ctor"] = "from_list"
+        elif r < 0.16:
+            case["ctor"] = "from_lasers"
+
+    def gen_sizes(self, rng):
+        """stacks beyond the usual sizes: 6..16 layers of 1-3 lines, or 7..24 lines in one layer kind (magnification 1-2,
+        at most two sub-pixels per pixel)"""
+        for _ in range(200):
+            M = rng.choice([1, 1, 2])
+            if rng.random() < 0.5:
+                n, l0, l1 = rng.choice([6, 7, 8, 9, 12, 16]), rng.randint(1, 3), rng.randint(1, 3)
+            else:
+                n, l0, l1 = rng.choice([2, 2, 3]), rng.randint(7, 24), rng.randint(1, 8)
+                if rng.random() < 0.5:
+                    l0, l1 = l1, l0
+            pairs = rng.choice([[[0, 1]], [[0, 2], [1, 2]], [[1, 2]], [[1, 1], [0, 1]], [[0, 2], [1, 2], [3, 2]]])
+            size = math.lcm(*[d for _, d in pairs])
+            p = math.lcm(size, M) // M
+            ov = max(o * size // d for o, d in pairs)
+            if (l0 * M * p + ov) * (l1 * M * p + ov) * n > 9000:
+                continue
+            w = rng.choice([0, 0, 1, 4])
+            spotsize, speed, scantime = int_mag_triple(rng, M)
+            case = {"spotsize": spotsize, "speed": speed, "scantime": scantime, "warmup": w * scantime, "pairs": pairs, "mag": M, "n": n,
+                    "shapes": [[l0, w + l1 * M + rng.choice([0, 0, 2])], [l1, w + l0 * M + rng.choice([0, 1])]], "short": None,
+                    "wmode": "exact", "nel": rng.choice([1, 1, 2]), "element": rng.randrange(2)}
+            self.gen_payload(rng, case, plain=0.7)
+            if rng.random() < 0.3:
+                case["kind"], case["order"] = "history", "std"
+                case["steps"] = [rng.choice([{"op": "pop"}, {"op": "append"}, {"op": "replace", "layer": n - 1}, {"op": "rename", "map": [["A", "D"]]},
+                                             {"op": "setdata", "n": rng.choice([2, 5, 6, 11]), "via": "list"}])]
+            return case
+        raise core.InternalError("could not generate a large SRR case")
 
     def gen_cfg_only(self, rng):
         """no stack: one configuration object that is given a history of offset lists"""
@@ -237,46 +383,154 @@ class C09(Prop):
                     "element": 0}
         raise core.InternalError("could not generate a large-denominator SRR case")
 
+    def gen_payload(self, rng, case, plain=0.6):
+        """the sample dtype and payload of a stack: float64 integers mostly; float32 / integer dtypes, fractional payloads
+        (token / 2, token / 4), tokens beyond 2^40 (float64, int64), negative tokens"""
+        if rng.random() < plain:
+            return
+        dt = rng.choice(["f8", "f8", "f8", "f4", "f4", "i8", "i4", "u2"])
+        case["dtype"] = dt
+        if dt in ("f8", "f4") and rng.random() < 0.6:
+            case["scale"] = rng.choice([0.5, 0.25])
+        if dt in ("f8", "i8") and rng.random() < 0.4:
+            case["base"] = rng.choice([2**40 + 1, -(2**40), 2**33 + 5])
+        elif dt in ("f4", "i4") and rng.random() < 0.2:
+            case["base"] = -4000
+
     def gen_history(self, rng):
-        """reconstruct, change the SAME SRRLaser object (layer replaced / edited in place / config changed), reconstruct again"""
+        """reconstruct, change the SAME SRRLaser object, reconstruct again.  Changes: a layer replaced / edited in place, the
+        config replaced / changed by its setters / given another magnification, the ELEMENT SET of the stack changed (rename,
+        add, remove), `laser.data` replaced by layers with other names / sample dtype / footprint / number of layers, a layer
+        appended or popped, the arrays an earlier reconstruction returned overwritten by the caller"""
         case = gen_srr(rng, max_vox=3500, force_valid=True)
-        case["nel"] = rng.choice([1, 1, 2])
-        case["element"] = rng.randrange(case["nel"])
+        case["nel"] = rng.choice([1, 2, 2, 3])
+        case["element"] = rng.randrange(3)
         case["kind"] = "history"
+        self.gen_payload(rng, case, plain=0.5)
+        self.gen_ctor(rng, case)
         M, n = case["mag"], case["n"]
         (l0, s0), (l1, s1) = case["shapes"]
+        pairs_cur = case["pairs"]
+        w = max(0, round(Fraction(case["warmup"]) / Fraction(case["scantime"])))  # input sizing only
+        names = NAMES[:case["nel"]]
+        spare = ["D", "E", "F", "G"]
+
+        def vox(l0_, l1_, M_, n_, pairs_):
+            size = math.lcm(*[d for _, d in pairs_])
+            p = math.lcm(size, M_) // M_
+            ov = max(o * size // d for o, d in pairs_)
+            return (l0_ * M_ * p + ov) * (l1_ * M_ * p + ov) * n_
+
         steps = []
-        for _ in range(rng.choice([1, 1, 1, 1, 2])):
-            op = rng.choice(["replace", "replace", "edit", "edit", "config"])
+        for _ in range(rng.choice([1, 1, 1, 1, 1, 2, 2, 2, 3])):
+            op = rng.choice(["replace", "edit", "edit", "config", "config", "rename", "rename", "add", "add", "remove", "remove",
+                             "setdata", "setdata", "setdata", "append", "pop", "params", "scribble"])
             i = rng.randrange(n)
+            if op == "remove" and len(names) < 2:
+                op = "add"
+            if op == "pop" and n < 3:
+                op = "append"
+            if op == "append" and vox(l0, l1, M, n + 1, pairs_cur) > 3500:
+                op = "rename"
             if op == "replace":
                 steps.append({"op": "replace", "layer": i})
             elif op == "edit":
-                rows, cols = case["shapes"][i % 2]
+                rows, cols = (l0, s0) if i % 2 == 0 else (l1, s1)
                 cells = "all" if rng.random() < 0.3 else [[rng.randrange(rows), rng.randrange(cols)] for _ in range(rng.choice([1, 1, 2, 4]))]
                 steps.append({"op": "edit", "layer": i, "cells": cells})
+            elif op == "rename":
+                style = rng.choice(["one", "one", "swap", "all", "chain"])
+                if style == "swap" and len(names) >= 2:
+                    a, b = rng.sample(names, 2)
+                    mp = [[a, b], [b, a]]
+                elif style == "all":
+                    mp = [[x, x + "x"] for x in names]
+                elif style == "chain" and len(names) >= 2:  # A -> B while B -> new
+                    a, b = rng.sample(names, 2)
+                    mp = [[a, b], [b, spare.pop(0)]]
+                else:
+                    mp = [[rng.choice(names), spare.pop(0)]]
+                if rng.random() < 0.15:
+                    mp.append(["nosuch", "Z"])  # a key that names no element is ignored
+                rn = dict(mp)
+                names = [rn.get(x, x) for x in names]
+                steps.append({"op": "rename", "map": mp})
+            elif op == "add":
+                nm = spare.pop(0)
+                steps.append({"op": "add", "name": nm, "dtype": case.get("dtype", "f8") if rng.random() < 0.7 else rng.choice(["f8", "f4", "i8"])})
+                names = names + [nm]
+            elif op == "remove":
+                k = 1 if rng.random() < 0.75 else rng.randint(1, len(names) - 1)
+                rm = rng.sample(names, k)
+                steps.append({"op": "remove", "names": rm, "as_str": rng.random() < 0.5})
+                names = [x for x in names if x not in rm]
+            elif op == "setdata":
+                what = rng.choice(["dtype", "dtype", "dtype", "names", "names", "footprint", "layers", "values"])
+                stp = {"op": "setdata", "via": rng.choice(["list", "items"])}
+                if what == "dtype":
+                    cur_dt = case.get("dtype", "f8")
+                    stp["dtype"] = rng.choice([d for d in ("f8", "f8", "f4", "i8", "i4", "u2") if d != cur_dt])
+                    stp["scale"] = rng.choice([1, 0.5, 0.25]) if stp["dtype"] in ("f8", "f4") else 1
+                elif what == "names":
+                    k = rng.choice([len(names), len(names), 1, 2, 3])
+                    pool = [x for x in ["P", "Q", "R"] + names if True]
+                    rng.shuffle(pool)
+                    names = list(dict.fromkeys(pool))[:k]
+                    stp["names"] = names
+                elif what == "footprint":
+                    for _ in range(30):
+                        a, b = rng.randint(1, 6), rng.randint(1, 6)
+                        if (a, b) != (l0, l1) and vox(a, b, M, n, pairs_cur) <= 3500:
+                            l0, l1 = a, b
+                            s0, s1 = w + l1 * M + rng.choice([0, 0, 1, 3]), w + l0 * M + rng.choice([0, 0, 2])
+                            stp["shapes"] = [[l0, s0], [l1, s1]]
+                            break
+                elif what == "layers":
+                    for _ in range(10):
+                        n2 = rng.choice([2, 3, 4, 5])
+                        if n2 != n and vox(l0, l1, M, n2, pairs_cur) <= 3500:
+                            n = n2
+                            stp["n"] = n
+                            break
+                steps.append(stp)
+            elif op == "append":
+                steps.append({"op": "append"})
+                n += 1
+            elif op == "pop":
+                steps.append({"op": "pop"})
+                n -= 1
+            elif op == "scribble":
+                steps.append({"op": "scribble"})
+            elif op == "params":
+                # another integer magnification for which the stack is still long enough
+                cands = [m for m in (1, 2, 3, 4, 5) if m != M and w + l1 * m <= s0 and w + l0 * m <= s1 and vox(l0, l1, m, n, pairs_cur) <= 3500]
+                if not cands:
+                    steps.append({"op": "scribble"})
+                    continue
+                M = rng.choice(cands)
+                sp, v, t = int_mag_triple(rng, M)
+                steps.append({"op": "params", "spotsize": sp, "speed": v, "scantime": t, "mag": M})
             else:
-                weff = round(Fraction(case["warmup"]) / Fraction(case["scantime"]))
-                w2 = rng.randint(0, max(0, weff))  # not more warm-up than before: the stack stays long enough
-                pairs2 = case["pairs"]
+                w2 = rng.randint(0, w)  # not more warm-up than before: the stack stays long enough
+                pairs2 = pairs_cur
                 for _ in range(50):
                     cand = gen_pairs(rng)
-                    size = math.lcm(*[d for _, d in cand])
-                    p = math.lcm(size, M) // M
-                    ov = max(o * size // d for o, d in cand)
-                    if cand != case["pairs"] and (l0 * M * p + ov) * (l1 * M * p + ov) * n <= 3500:
+                    if cand != pairs_cur and vox(l0, l1, M, n, cand) <= 3500:
                         pairs2 = cand
                         break
                 via = rng.choice(["object", "setter", "setter", "equal"])
                 if via == "equal":  # set_equal_subpixel_offsets(width): offsets 0/width .. (width-1)/width
                     for width in rng.sample([1, 2, 3, 4, 5], 5):
-                        p = math.lcm(width, M) // M
-                        if (l0 * M * p + width - 1) * (l1 * M * p + width - 1) * n <= 3500:
+                        if vox(l0, l1, M, n, [[k, width] for k in range(width)]) <= 3500:
                             pairs2 = [[k, width] for k in range(width)]
                             break
                     else:
                         via = "setter"
-                steps.append({"op": "config", "via": via, "pairs": pairs2, "warmup": w2 * case["scantime"]})
+                scantime_now = next((x["scantime"] for x in reversed(steps) if x["op"] == "params"), case["scantime"])
+                steps.append({"op": "config", "via": via, "pairs": pairs2, "warmup": w2 * scantime_now})
+                pairs_cur, w = pairs2, w2
+            if len(steps) > 1 and rng.random() < 0.25:
+                steps[-2]["obs"] = True  # observe after that step as well (three observation points)
         case["steps"] = steps
         case["order"] = rng.choice(["std", "std", "flat-first", "krisskross-first"])
         return case
@@ -324,6 +578,33 @@ class C09(Prop):
         yield {**base, "kind": "history", "shapes": [[1, 1], [1, 1]], "steps": [{"op": "replace", "layer": 0}], "order": "std"}
         yield {**base, "kind": "history", "shapes": [[1, 2], [2, 1]], "n": 3, "steps": [{"op": "edit", "layer": 2, "cells": [[0, 0]]}],
                "order": "std"}
+        # ---- histories that change the element set / sample dtype / footprint / layer count / magnification of the SAME object
+        yield {**hbase, "steps": [{"op": "rename", "map": [["A", "C"]]}]}
+        yield {**hbase, "steps": [{"op": "rename", "map": [["A", "B"], ["B", "A"]]}], "order": "flat-first"}
+        yield {**hbase, "steps": [{"op": "add", "name": "D", "dtype": "f8"}]}
+        yield {**hbase, "steps": [{"op": "add", "name": "D", "dtype": "i8"}], "scale": 0.25}
+        yield {**hbase, "steps": [{"op": "remove", "names": ["A"], "as_str": True}], "order": "krisskross-first"}
+        yield {**hbase, "nel": 3, "steps": [{"op": "remove", "names": ["C", "A"]}]}
+        yield {**hbase, "dtype": "i8", "steps": [{"op": "setdata", "dtype": "f8", "scale": 0.25, "via": "items"}]}
+        yield {**hbase, "base": 2**40 + 1, "steps": [{"op": "setdata", "dtype": "f4", "scale": 0.5, "via": "list"}]}
+        yield {**hbase, "dtype": "f4", "scale": 0.5, "steps": [{"op": "setdata", "dtype": "u2", "via": "list"}]}
+        yield {**hbase, "steps": [{"op": "setdata", "names": ["B", "A"], "via": "items"}]}
+        yield {**hbase, "steps": [{"op": "setdata", "names": ["P"], "via": "list"}]}
+        yield {**hbase, "steps": [{"op": "setdata", "shapes": [[2, 8], [3, 5]], "via": "list"}]}
+        yield {**hbase, "steps": [{"op": "setdata", "n": 2, "via": "list"}]}
+        yield {**hbase, "steps": [{"op": "append"}]}
+        yield {**hbase, "steps": [{"op": "pop"}]}
+        yield {**hbase, "steps": [{"op": "pop", "obs": True}, {"op": "append"}]}
+        yield {**hbase, "steps": [{"op": "scribble"}]}
+        yield {**hbase, "shapes": [[3, 9], [2, 13]], "steps": [{"op": "params", "spotsize": 140.0, "speed": 140.0, "scantime": 0.25, "mag": 4}]}
+        yield {**hbase, "steps": [{"op": "params", "spotsize": 35.0, "speed": 140.0, "scantime": 0.25, "mag": 1}]}
+        yield {**hbase, "steps": [{"op": "rename", "map": [["A", "C"]], "obs": True}, {"op": "rename", "map": [["C", "A"]], "obs": True},
+                                  {"op": "edit", "layer": 1, "cells": "all"}]}
+        yield {**hbase, "steps": [{"op": "add", "name": "D", "dtype": "f4"}, {"op": "remove", "names": ["A", "B"]}]}
+        # ---- sample dtypes and payloads of a fresh stack
+        for dt, extra in (("f4", {"scale": 0.25}), ("i8", {"base": -(2**40)}), ("i4", {}), ("u2", {}), ("f8", {"scale": 0.5, "base": 2**40 + 1})):
+            yield {**base, "spotsize": 70.0, "mag": 2, "warmup": 0.25, "pairs": [[1, 3], [1, 2]], "shapes": [[3, 7], [2, 9]], "n": 3,
+                   "nel": 2, "element": 1, "dtype": dt, **extra}
         # ---- reconstruction with denominators >= 10 (1 line, magnification 1)
         yield {**base, "pairs": [[3, 10]], "shapes": [[1, 1], [1, 1]]}
         yield {**base, "pairs": [[0, 1], [5, 11]], "shapes": [[1, 2], [2, 1]], "n": 3}
@@ -345,21 +626,35 @@ class C09(Prop):
                         yield {**base, "spotsize": 35.0 * M, "mag": M, "warmup": 0.0, "pairs": [[0, 2], [1, 2]],
                                "shapes": [[l0, s], [l1, s]]}
 
-    def build_layers(self, case):
-        shapes = stack_shapes(case)
-        nel = case["nel"]
+    def case_fields(self, case):
+        """the fields [name, dtype.str] and the float payload scale of the stack a case starts with"""
+        names = case.get("names") or NAMES[:case["nel"]]
+        dt = DTYPES.get(case.get("dtype", "f8"))
+        fscale = case.get("scale", 1)
+        ok = (dt is not None and fscale in SCALES and isinstance(names, list) and len(names) >= 1 and len(set(names)) == len(names)
+              and all(isinstance(n, str) and n.isidentifier() for n in names))
+        return [[n, dt] for n in names], fscale, ok
+
+    def enc_stack(self, shapes, nfields, start):
+        """fresh tokens for a stack of the given layer shapes: every sample of every field a number no other sample has"""
         total = sum(l * s for l, s in shapes)
-        layers, enc = [], []
-        start = 1
+        enc = []
         for (l, s) in shapes:
-            a = np.empty((l, s), dtype=[(n, np.float64) for n in NAMES[:nel]])
-            base = np.arange(start, start + l * s, dtype=np.float64).reshape(l, s)
-            for e, n in enumerate(NAMES[:nel]):
-                a[n] = base + e * total
+            enc.append({"rows": l, "cols": s, "data": [[start + v + e * total for e in range(nfields)] for v in range(l * s)]})
             start += l * s
-            layers.append(a)
-            enc.append({"rows": l, "cols": s, "data": [[int(v) + e * total for e in range(nel)] for v in base.ravel()]})
-        return layers, enc
+        return enc, start + (nfields - 1) * total
+
+    def build_layers(self, case):
+        """-> (arrays, encoded layers, fields, float scale, next unused token); arrays is None when the payload does not fit the dtype"""
+        fields, fscale, ok = self.case_fields(case)
+        if not ok:
+            return None, None, fields, fscale, 0
+        base = int(case.get("base", 1))
+        enc, fresh = self.enc_stack(stack_shapes(case), len(fields), base)
+        if not payload_ok(fields, enc, fscale):
+            return None, enc, fields, fscale, fresh
+        layers = [make_layer(fields, L["rows"], L["cols"], L["data"], fscale) for L in enc]
+        return layers, enc, fields, fscale, max(abs(base), abs(fresh)) + 1
 
     def evaluate(self, case, ctx):
         from pewlib.srr.srr import SRRLaser
@@ -369,9 +664,10 @@ class C09(Prop):
             return self.eval_cfg(case, ctx)
         if kind not in ("recon", "history"):
             raise core.InternalError(f"unknown case kind {kind}")
-        names = NAMES[:case["nel"]]
-        e = case["element"]
-        layers, enc = self.build_layers(case)
+        layers, enc, fields, fscale, fresh = self.build_layers(case)
+        if layers is None:
+            # names that are no identifiers / duplicates, an unknown dtype or scale, tokens the dtype does not hold exactly
+            return outcome(None, None, None, spec_ok=True, model_ok=True, undetermined=True, hyp=False, features=[])
         mag = float_mag(case)
         if case.get("near"):
             laser = SRRLaser(layers, config=make_srr_cfg(case))
@@ -397,22 +693,39 @@ class C09(Prop):
         if mag != float(case["mag"]):
             raise core.InternalError("generator: magnification is not the intended float integer")
         cfg = make_srr_cfg(case)
-        laser = SRRLaser(layers, config=cfg)
-        if kind == "history":
-            return self.eval_history(case, ctx, laser, layers, enc)
-        st = self.eval_state(case, ctx, laser, cfg, enc)
-        return outcome(st["impl"], st["model"], st["spec"], spec_ok=st["spec_ok"], model_ok=st["model_ok"],
-                       undetermined=st["undet"], features=st["feats"], note=st["note"])
+        ctor = case.get("ctor", "init")
+        if ctor == "from_list" and all(f[1] == "<f8" for f in fields):
+            # the classmethod builds float64 structured layers from one plain array per element and layer
+            laser = SRRLaser.from_list([f[0] for f in fields], [[np.array(a[f[0]]) for f in fields] for a in layers], config=cfg)
+        elif ctor == "from_lasers":
+            # stacked from one Laser per layer (raster parameters of the first one, default warm-up and offsets), then given the config
+            from pewlib.config import Config
+            from pewlib.laser import Laser
 
-    def eval_state(self, case, ctx, laser, cfg, enc, order="std"):
+            raster = Config(spotsize=case["spotsize"], speed=case["speed"], scantime=case["scantime"])
+            laser = SRRLaser.from_lasers([Laser(a, config=raster) for a in layers])
+            laser.config = cfg
+        else:
+            ctor = "init"
+            laser = SRRLaser(layers, config=cfg)
+        st = {"ctor": ctor, "fields": fields, "enc": enc, "sops": [], "fscale": fscale, "fresh": fresh,
+              "low": 1 if abs(int(case.get("base", 1))) >= 2**30 else None}
+        if kind == "history":
+            return self.eval_history(case, ctx, laser, st)
+        r = self.eval_state(case, ctx, laser, cfg, st)
+        if r.get("excluded"):
+            return outcome(None, None, None, spec_ok=True, model_ok=True, undetermined=True, hyp=False, features=[])
+        return outcome(r["impl"], r["model"], r["spec"], spec_ok=r["spec_ok"], model_ok=r["model_ok"],
+                       undetermined=r["undet"], features=r["feats"], note=r["note"])
+
+    def eval_state(self, case, ctx, laser, cfg, st, order="std"):
         """every observation of the property on `laser` in its CURRENT state, against the model/specification that the driver
-        computes from the INPUTS: the stack `enc` and the constructor arguments + later changes described by `case`
-        (spotsize, speed, scantime, warmup, pairs, ops). `cfg` is the configuration object whose getters / round trip are observed."""
+        computes from the INPUTS: the stack the object was built with (`st["fields"]`, `st["enc"]`) and the changes made to it since
+        (`st["sops"]`, applied by Lean's `Stack.applyAll`), the constructor arguments + later changes of the configuration described
+        by `case` (spotsize, speed, scantime, warmup, pairs, ops). `cfg` is the configuration object whose getters / round trip are
+        observed."""
         from pewlib.config import Config
         from pewlib.srr.config import SRRConfig
-
-        names = NAMES[:case["nel"]]
-        e = case["element"]
 
         def obs_cfg(c):
             o = {"params": [rat(float(c.spotsize)), rat(float(c.speed)), rat(float(c.scantime))], "warmup": rat(float(c.warmup)),
@@ -439,12 +752,25 @@ class C09(Prop):
                 arrays = [arr_enc, raster_enc]
         except Exception as ex:
             arr, arr_note = None, {"raises": type(ex).__name__, "msg": str(ex)[:200]}
-        rep = ctx.driver.call("c09.srr", cfg=srr_cfg_json(case), nel=case["nel"], layers=enc, arrays=arrays)
+        rep = ctx.driver.call("c09.srr", cfg=srr_cfg_json(case), fields=st["fields"], layers=st["enc"], stack_ops=st["sops"],
+                              arrays=arrays)
+        if not rep["stack_ok"]:
+            raise core.InternalError("a change of the stack that the model does not cover reached eval_state")
         mj = rep["config"]
         if not mj["integer_mag"] or mj["mag"] != case["mag"]:
             raise core.InternalError("generator: the model's float64 magnification is not the intended integer")
         if not rep["crossed"]:
             raise core.InternalError("generator: the stack is not crossed")
+        # ---- the stack the object should hold now (Lean): fields, layers
+        fields = rep["fields"]
+        names = [f[0] for f in fields]
+        scales = [field_scale(f[1], st["fscale"]) for f in fields]
+        kinds = [kind_of(f[1]) for f in fields]
+        rels = [FLAT_REL32 if f[1] == "<f4" else FLAT_REL for f in fields]
+        nel, n = len(fields), len(rep["stack"])
+        e = case["element"] % nel
+        if not payload_ok(fields, rep["stack"], st["fscale"]):
+            return {"excluded": True}
         # the statement of offsets_setter_exact on the rows the configuration reports (evaluated by the driver)
         setter_exact = None
         try:
@@ -459,6 +785,7 @@ class C09(Prop):
         # ---- implementation, observed at check_config_valid / get / krisskross and the config's array round trip
         valid = bool(laser.check_config_valid(laser.config))
         impl = {"valid": valid}
+        returned = []  # the arrays the reconstructions handed out (a later step of a history may write into them)
         if valid:
             try:
                 if order == "flat-first":
@@ -466,26 +793,47 @@ class C09(Prop):
                 elif order == "krisskross-first":
                     laser.krisskross()
                 recon = laser.get()
-                impl["recon"] = enc3(recon, names)
-                impl["krisskross"] = enc3(laser.krisskross(), names)
+                returned.append(recon)
+                impl["recon_fields"] = descr_of(recon.dtype)
+                impl["recon"] = enc3(recon, names, scales)
+                kk = laser.krisskross()
+                returned.append(kk)
+                impl["krisskross"] = enc3(kk, names, scales)
                 el = laser.get(names[e])
+                returned.append(el)
                 impl["element"] = {"shape": list(el.shape),
-                                   "data": [[tokens(v) for v in row] for row in el]}
+                                   "data": [[tokens(v, scales[e]) for v in row] for row in el]}
                 fl = laser.get(flat=True)
-                impl["flat"] = {"shape": list(fl.shape), "data": [[[float(fl[n][r, c]) for c in range(fl.shape[1])]
-                                                                    for r in range(fl.shape[0])] for n in names]}
+                returned.append(fl)
+                impl["flat"] = {"shape": list(fl.shape), "data": [[[float(fl[nm][r, c]) / sc for c in range(fl.shape[1])]
+                                                                    for r in range(fl.shape[0])] for nm, sc in zip(names, scales)]}
                 fe = laser.get(names[e], flat=True)
-                impl["flat_element"] = {"shape": list(fe.shape), "data": [[float(v) for v in row] for row in fe]}
+                returned.append(fe)
+                impl["flat_element"] = {"shape": list(fe.shape), "data": [[float(v) / scales[e] for v in row] for row in fe]}
             except Exception as ex:
                 impl["recon"] = {"raises": type(ex).__name__, "msg": str(ex)[:200]}
         impl["offsets_exact"] = setter_exact
         impl["layers"], impl["layers_flat"] = [], []
-        for i in range(case["n"]):
+        impl["layers_element"] = []
+        for i in range(n):
             for key, kw in (("layers", {}), ("layers_flat", {"flat": True})):
                 try:
-                    impl[key].append(enc2(laser.get(layer=i, **kw), names))
+                    impl[key].append(enc2(laser.get(layer=i, **kw), names, scales))
                 except Exception as ex:
                     impl[key].append({"raises": type(ex).__name__, "msg": str(ex)[:200]})
+            try:  # get(element, layer=i): that element of the layer
+                le = laser.get(names[e], layer=i, flat=bool(i % 3 == 1))
+                impl["layers_element"].append({"shape": list(le.shape), "data": [tokens(row, scales[e]) for row in le]} if le.ndim == 2
+                                              else {"shape": list(le.shape)})
+            except Exception as ex:
+                impl["layers_element"].append({"raises": type(ex).__name__, "msg": str(ex)[:200]})
+        # the stack itself, read from the public list `laser.data` (against the model of the changes made to it)
+        try:
+            impl["stack"] = {"fields": [descr_of(a.dtype) for a in laser.data],
+                             "layers": [{"rows": int(a.shape[0]), "cols": int(a.shape[1]),
+                                         "data": [tokens(v) for v in per_field(a, names, scales).reshape(-1, nel)]} for a in laser.data]}
+        except Exception as ex:
+            impl["stack"] = {"raises": type(ex).__name__, "msg": str(ex)[:200]}
         try:
             impl["config"] = obs_cfg(cfg)
         except Exception as ex:
@@ -506,8 +854,9 @@ class C09(Prop):
         spec = {"valid": rep["valid_spec"],
                 "recon": rep["spec"] if rep["spec_inrange"] else {"unsatisfiable": "a source index of the geometric model is out of range"},
                 "flat": rep["flat_spec"], "layers": rep["layer_spec"], "layers_flat": rep["layer_spec"], "roundtrip": "unchanged"}
-        model = {"valid": rep["valid"], "recon": rep["model"], "flat": rep["flat_model"], "layers": rep["layer_model"],
-                 "layers_flat": rep["layer_model_flat"], "config": cfg_view(mj), "array": rep["array_model"],
+        model = {"valid": rep["valid"], "recon": rep["model"], "recon_fields": fields, "flat": rep["flat_model"],
+                 "layers": rep["layer_model"], "layers_flat": rep["layer_model_flat"],
+                 "stack": {"fields": [fields] * n, "layers": rep["stack"]}, "config": cfg_view(mj), "array": rep["array_model"],
                  "roundtrip": cfg_view(rep["roundtrip_model"]),
                  "from_raster_array": cfg_view(rep["from_arrays"][1]) if arrays else None}
 
@@ -522,10 +871,14 @@ class C09(Prop):
                 return False
             if impl["flat"]["shape"] != target["shape"][:2] or impl["flat_element"]["shape"] != target["shape"][:2]:
                 return False
-            for k in range(case["nel"]):
-                if "data" not in flats[k] or not flat_close(impl["flat"]["data"][k], flats[k]["data"]):
+            for k in range(nel):
+                if kinds[k] != "f":
+                    # get(flat=True) without an element stores the mean in the field's own integer dtype (truncated):
+                    # integer sample dtypes are outside what is compared for the structured flat image (see notes/TC09.md)
+                    continue
+                if "data" not in flats[k] or not flat_close(impl["flat"]["data"][k], flats[k]["data"], rels[k]):
                     return False
-            return flat_close(impl["flat_element"]["data"], flats[e]["data"])
+            return flat_close(impl["flat_element"]["data"], flats[e]["data"], rels[e])
 
         def same(a, b):
             return core.canon(a) == core.canon(b)
@@ -540,7 +893,10 @@ class C09(Prop):
                 return True
             return same(o, v)
 
-        layers_spec_ok = same(impl["layers"], spec["layers"]) and same(impl["layers_flat"], spec["layers"])
+        spec["layers_element"] = [pick_element(L, e) if isinstance(L, dict) else L for L in rep["layer_spec"]]
+        model["layers_element"] = [pick_element(L, e) if isinstance(L, dict) else L for L in rep["layer_model"]]
+        layers_spec_ok = (same(impl["layers"], spec["layers"]) and same(impl["layers_flat"], spec["layers"])
+                          and same(impl["layers_element"], spec["layers_element"]))
         rt_same = isinstance(impl["config"], dict) and "raises" not in impl["config"] and same(impl["roundtrip"], impl["config"])
         # acceptance is compared in BOTH directions (theorems valid_iff_spec / valid_iff_evaluable): accepted iff the geometric
         # model can be evaluated.  (When float rounding decides the warm-up in samples the case is undetermined anyway.)
@@ -549,6 +905,8 @@ class C09(Prop):
         spec["offsets_exact"] = model["offsets_exact"] = None if setter_exact is None else True
         model_ok = (valid == (rep["valid"] is True) and recon_ok(model["recon"], rep["flat_model"])
                     and same(impl["layers"], model["layers"]) and same(impl["layers_flat"], model["layers_flat"])
+                    and same(impl["layers_element"], model["layers_element"]) and same(impl["stack"], model["stack"])
+                    and (not (valid and "data" in impl.get("recon", {})) or same(impl["recon_fields"], fields))
                     and agrees(impl["config"], model["config"]) and agrees(impl["roundtrip"], model["roundtrip"]))
         if arrays:
             model_ok = model_ok and same(impl["array"], model["array"]) and agrees(impl["from_raster_array"], model["from_raster_array"])
@@ -559,20 +917,22 @@ class C09(Prop):
         if not determined:
             spec_ok = True
         feats = set()
+        sh0 = (rep["stack"][0]["rows"], rep["stack"][0]["cols"])
+        sh1 = (rep["stack"][1]["rows"], rep["stack"][1]["cols"])
         if valid and "data" in impl.get("recon", {}):
-            l0, l1 = case["shapes"][0][0], case["shapes"][1][0]
+            l0, l1 = sh0[0], sh1[0]
             w = mj["warmup_samples"]
             M = mj["mag"]
-            ex0 = case["shapes"][0][1] - (w + l1 * M)
-            ex1 = case["shapes"][1][1] - (w + l0 * M)
-            feats |= {f"mag{M}", f"layers{case['n']}", f"elements{case['nel']}",
+            ex0 = sh0[1] - (w + l1 * M)
+            ex1 = sh1[1] - (w + l0 * M)
+            feats |= {f"mag{M}", f"layers{n}", f"elements{nel}",
                       "non-square" if l0 != l1 else "square",
                       "warmup>0" if w > 0 else "warmup=0",
                       "excess>0" if max(ex0, ex1) > 0 else "exact-fit",
                       "first-offset-zero" if mj["offs"][0] == 0 else "first-offset-nonzero",
                       "spp>1" if mj["spp"] > 1 else "spp=1",
                       f"offsets{len(mj['offs'])}", f"warmup-{case['wmode']}"}
-            if len(mj["offs"]) + (mj["offs"][0] != 0) < case["n"]:
+            if len(mj["offs"]) + (mj["offs"][0] != 0) < n:
                 feats.add("offsets-cycle")
             if min(l0, l1) == 1:
                 feats.add("one-line")
@@ -582,6 +942,23 @@ class C09(Prop):
                 feats.add("magnification: exact quotient is not the float integer")
             if arrays:
                 feats.add("array-form: structured dtype compared")
+            dts = sorted({f[1] for f in fields})
+            if dts != ["<f8"]:
+                feats |= {"dtype:" + d for d in dts}
+                if len(dts) > 1:
+                    feats.add("dtype:mixed-fields")
+            if st.get("ctor", "init") != "init":
+                feats.add("ctor:" + st["ctor"])
+            if n > 5:
+                feats.add("layers>5")
+            if max(l0, l1) > 6:
+                feats.add("lines>6")
+            if any(k != "f" for k in kinds):
+                feats.add("flat(structured) of an integer field: truncated by pewlib, not compared")
+            if st["fscale"] != 1 and "f" in kinds:
+                feats.add("payload:fractional")
+            if any(abs(v) >= 2**32 for L in rep["stack"] for px in L["data"][:1] for v in px):
+                feats.add("payload:beyond-2^32")
         note = ""
         if not valid:
             note = "rejected"
@@ -591,83 +968,257 @@ class C09(Prop):
         if not determined:
             feats.add("warm-up decided by float rounding (undetermined)")
         return {"impl": impl, "model": model, "spec": spec, "spec_ok": spec_ok, "model_ok": model_ok, "undet": undet,
-                "feats": feats, "note": note, "valid": valid}
+                "feats": feats, "note": note, "valid": valid, "returned": returned, "fields": fields,
+                "shapes": [[L["rows"], L["cols"]] for L in rep["stack"]]}
 
-    # ------------------------------------------------------------------ two-step history on one object
-    def eval_history(self, case, ctx, laser, layers, enc):
-        from pewlib.srr.config import SRRConfig
-
-        names = NAMES[:case["nel"]]
+    # ------------------------------------------------------------------ histories on one object
+    def eval_history(self, case, ctx, laser, st):
+        """observe, change the SAME object step by step, observe again (after the last step, and after every step marked "obs").
+        A step changes the object and, independently, the abstract description (`st["sops"]` for the stack - applied by Lean -,
+        `case["ops"]` for the configuration)."""
         order = case.get("order", "std")
-        first = self.eval_state(case, ctx, laser, laser.config, enc, order=order)
-        # ---- the changes, on the object and (independently) on the abstract description
-        n = case["n"]
-        total = sum(L["rows"] * L["cols"] for L in enc)
-        shift = case["nel"] * total  # fresh tokens: every changed sample gets a value no other sample has
-        enc2 = copy.deepcopy(enc)
+        excluded = outcome(None, None, None, spec_ok=True, model_ok=True, undetermined=True, hyp=False, features=[])
+        states = [self.eval_state(case, ctx, laser, laser.config, st, order=order)]
+        if states[0].get("excluded"):
+            return excluded
+        cur = {"fields": states[0]["fields"], "shapes": states[0]["shapes"]}
         case2 = dict(case)
         case2["ops"] = list(case.get("ops", []))
+        st = dict(st, sops=list(st["sops"]))
         hfeats = set()
-        for k, stp in enumerate(case.get("steps", [])):
-            delta = (k + 1) * shift
-            op = stp["op"]
-            if op in ("replace", "edit"):
-                i = stp["layer"] % n
-                L = enc2[i]
-                if op == "replace" or stp["cells"] == "all":
-                    cells = [[r, c] for r in range(L["rows"]) for c in range(L["cols"])]
-                else:
-                    cells = [[r % L["rows"], c % L["cols"]] for r, c in stp["cells"]]
-                    cells = [list(x) for x in sorted({tuple(x) for x in cells})]
-                for r, c in cells:
-                    L["data"][r * L["cols"] + c] = [v + delta for v in L["data"][r * L["cols"] + c]]
-                if op == "replace":
-                    old = laser.data[i]
-                    new = np.empty(old.shape, dtype=old.dtype)
-                    for nm in names:
-                        new[nm] = old[nm] + float(delta)
-                    laser.data[i] = new
-                    hfeats.add("history:replace-layer")
-                else:
-                    for nm in names:
-                        for r, c in cells:
-                            laser.data[i][nm][r, c] += float(delta)
-                    hfeats.add("history:edit-in-place")
-                hfeats.add("history:last-layer" if i == n - 1 else ("history:first-layer" if i == 0 else "history:inner-layer"))
-            elif op == "config":
-                pairs2 = [list(q) for q in stp["pairs"]]
-                case2["wmode"] = "exact"
-                # the driver is told what was DONE to the object (a new one, or the two setters); `pairs` only names the
-                # offset list the statement of offsets_setter_exact is evaluated for
-                if stp["via"] == "object":
-                    laser.config = make_srr_cfg({**case2, "pairs": pairs2, "warmup": stp["warmup"]})
-                    case2["ops"] = case2["ops"] + [cfg_op("new", spotsize=case2["spotsize"], speed=case2["speed"],
-                                                          scantime=case2["scantime"], warmup=stp["warmup"], pairs=pairs2)]
-                elif stp["via"] == "equal" and pairs2 == [[k, len(pairs2)] for k in range(len(pairs2))]:
-                    laser.config.set_equal_subpixel_offsets(len(pairs2))
-                    laser.config.warmup = stp["warmup"]
-                    case2["ops"] = case2["ops"] + [cfg_op("equal", width=len(pairs2)), cfg_op("warmup", seconds=stp["warmup"])]
-                else:
-                    laser.config.subpixel_offsets = [tuple(q) for q in pairs2]
-                    laser.config.warmup = stp["warmup"]
-                    case2["ops"] = case2["ops"] + [cfg_op("offsets", pairs=pairs2), cfg_op("warmup", seconds=stp["warmup"])]
-                case2["pairs_now"] = pairs2
-                hfeats.add("history:config-" + stp["via"])
-            else:
-                raise core.InternalError(f"unknown history step {op}")
-        second = self.eval_state(case2, ctx, laser, laser.config, enc2, order=order)
-        impl = {"first": first["impl"], "second": second["impl"]}
-        model = {"first": first["model"], "second": second["model"]}
-        spec = {"first": first["spec"], "second": second["spec"]}
+        steps = case.get("steps", [])
+        for k, stp in enumerate(steps):
+            try:
+                r = self.do_step(stp, case2, ctx, laser, st, cur, states, hfeats)
+            except StepRaised as ex:
+                # pewlib raised where the model of srr.py performs the change: reported as a difference between model and code
+                done = {"states": [x["impl"] for x in states]}
+                return outcome({**done, "step": k, "raises": str(ex)}, {"states": [x["model"] for x in states], "step": k, "performed": True},
+                               {"states": [x["spec"] for x in states]}, spec_ok=all(x["spec_ok"] for x in states), model_ok=False,
+                               features=["history:step-raises"], note=f"step {k} ({stp['op']}) raises {ex}")
+            if r == "excluded":
+                return excluded
+            if stp.get("obs") or k == len(steps) - 1:
+                states.append(self.eval_state(case2, ctx, laser, laser.config, st, order=order))
+                if states[-1].get("excluded"):
+                    return excluded
+        if len(states) == 1:
+            states.append(self.eval_state(case2, ctx, laser, laser.config, st, order=order))
+        impl = {"states": [x["impl"] for x in states]}
+        model = {"states": [x["model"] for x in states]}
+        spec = {"states": [x["spec"] for x in states]}
         feats = set()
-        if first["valid"] and second["valid"] and "data" in first["impl"].get("recon", {}) and "data" in second["impl"].get("recon", {}):
-            feats = {"history", f"history:order-{order}", f"history:steps{len(case.get('steps', []))}"} | hfeats
-            feats |= {f for f in second["feats"] if f.startswith(("mag", "layers", "elements"))}
-        elif not (first["valid"] and second["valid"]):
+        if all(x["valid"] and "data" in x["impl"].get("recon", {}) for x in states):
+            feats = {"history", f"history:order-{order}", f"history:steps{len(steps)}", f"history:observed{len(states)}x"} | hfeats
+            feats |= {f for f in states[-1]["feats"] if f.startswith(("mag", "layers", "elements", "dtype:", "payload:", "ctor:", "lines"))}
+        elif not all(x["valid"] for x in states):
             feats = {"history:rejected"}
-        return outcome(impl, model, spec, spec_ok=first["spec_ok"] and second["spec_ok"],
-                       model_ok=first["model_ok"] and second["model_ok"], undetermined=first["undet"] or second["undet"],
-                       features=feats, note=second["note"])
+        return outcome(impl, model, spec, spec_ok=all(x["spec_ok"] for x in states), model_ok=all(x["model_ok"] for x in states),
+                       undetermined=any(x["undet"] for x in states), features=feats, note=states[-1]["note"])
+
+    def stack_step(self, ctx, st, cur, sop):
+        """append a change of the stack to the abstract description; Lean says what the stack looks like afterwards
+        (False: the change is outside the model, e.g. a name that does not exist - nothing is done to the object then)"""
+        rep = ctx.driver.call("c09.stack", fields=st["fields"], layers=st["enc"], stack_ops=st["sops"] + [sop])
+        if not rep["ok"]:
+            return False
+        st["sops"].append(sop)
+        cur["fields"], cur["shapes"] = rep["states"][-1]["fields"], rep["states"][-1]["shapes"]
+        return True
+
+    def alloc(self, st, fields, shapes, fscale):
+        """fresh tokens for new layers: above every token used so far; when the dtype does not hold those and the stack started
+        beyond 2^30 (so that the small numbers are unused), from the unused small numbers.  None: they do not fit either way."""
+        enc, nxt = self.enc_stack(shapes, len(fields), st["fresh"])
+        if payload_ok(fields, enc, fscale):
+            st["fresh"] = nxt + 1
+            return enc
+        if st.get("low") is not None:
+            enc, nxt = self.enc_stack(shapes, len(fields), st["low"])
+            if nxt < 2**29 and payload_ok(fields, enc, fscale):
+                st["low"] = nxt + 1
+                return enc
+        return None
+
+    def fresh_layer(self, st, fields, rows, cols, fscale):
+        """a new layer of fresh tokens: (array, encoded); None when the dtype does not hold them"""
+        enc = self.alloc(st, fields, [(rows, cols)], fscale)
+        if enc is None:
+            return None
+        return make_layer(fields, rows, cols, enc[0]["data"], fscale), enc[0]
+
+    def do_step(self, stp, case2, ctx, laser, st, cur, states, hfeats):
+        op = stp["op"]
+        fields = [list(f) for f in cur["fields"]]
+        names = [f[0] for f in fields]
+        n = len(cur["shapes"])
+        if op in ("replace", "edit"):
+            i = stp["layer"] % n
+            rows, cols = cur["shapes"][i]
+            if op == "replace" or stp["cells"] == "all":
+                cells = [[r, c] for r in range(rows) for c in range(cols)]
+            else:
+                cells = [list(x) for x in sorted({(r % rows, c % cols) for r, c in stp["cells"]})]
+            delta = st["fresh"]  # every changed sample gets a value no other sample has
+            if not payload_ok(fields, [{"data": [[2 * delta] * len(fields)]}], st["fscale"]):
+                return "excluded"
+            if not self.stack_step(ctx, st, cur, {"op": "add_to", "layer": i, "cells": cells, "delta": delta}):
+                return "excluded"
+            st["fresh"] = 2 * delta
+            if op == "replace":
+                old = laser.data[i]
+                new = np.empty(old.shape, dtype=old.dtype)
+                for nm, dt in fields:
+                    new[nm] = old[nm] + np.asarray(delta * field_scale(dt, st["fscale"])).astype(old.dtype[nm])
+                laser.data[i] = new
+                hfeats.add("history:replace-layer")
+            else:
+                for nm, dt in fields:
+                    for r, c in cells:
+                        laser.data[i][nm][r, c] += np.asarray(delta * field_scale(dt, st["fscale"])).astype(laser.data[i].dtype[nm])
+                hfeats.add("history:edit-in-place")
+            hfeats.add("history:last-layer" if i == n - 1 else ("history:first-layer" if i == 0 else "history:inner-layer"))
+        elif op == "rename":
+            mp = [[str(a), str(b)] for a, b in stp["map"]]
+            if len({a for a, _ in mp}) != len(mp) or not all(b.isidentifier() for _, b in mp):
+                return "excluded"
+            if not self.stack_step(ctx, st, cur, {"op": "rename", "map": mp}):
+                return "excluded"
+            real(laser.rename, {a: b for a, b in mp})
+            hfeats |= {"history:rename", "history:element-set-change"}
+            if any(b in names for _, b in mp):
+                hfeats.add("history:rename-swap-or-chain")
+        elif op == "remove":
+            rm = [str(x) for x in stp["names"]]
+            if not self.stack_step(ctx, st, cur, {"op": "remove", "names": rm}):
+                return "excluded"
+            real(laser.remove, rm[0] if len(rm) == 1 and stp.get("as_str") else rm)
+            hfeats |= {"history:remove", "history:element-set-change"}
+        elif op == "add":
+            dt = DTYPES.get(stp.get("dtype", "f8"))
+            name = str(stp["name"])
+            if dt is None or not name.isidentifier():
+                return "excluded"
+            arrs, encs = [], []
+            for rows, cols in cur["shapes"]:
+                got = self.fresh_layer(st, [[name, dt]], rows, cols, st["fscale"])
+                if got is None:
+                    return "excluded"
+                arrs.append(np.ascontiguousarray(got[0][name]))
+                encs.append({"rows": rows, "cols": cols, "data": [px[0] for px in got[1]["data"]]})
+            if not self.stack_step(ctx, st, cur, {"op": "add", "name": name, "dtype": dt, "data": encs}):
+                return "excluded"
+            real(laser.add, name, arrs)
+            hfeats |= {"history:add", "history:element-set-change"}
+            if any(f[1] != dt for f in fields):
+                hfeats.add("history:dtype-change")
+        elif op == "setdata":
+            # other layers altogether: names / sample dtype / payload scale / footprint / number of layers as the step says,
+            # what it does not say stays as it is
+            nm2 = stp.get("names") or names
+            dt2 = DTYPES.get(stp["dtype"]) if stp.get("dtype") else None
+            if stp.get("dtype") and dt2 is None:
+                return "excluded"
+            fs2 = stp.get("scale", st["fscale"])
+            if not (isinstance(nm2, list) and nm2 and len(set(nm2)) == len(nm2) and all(isinstance(x, str) and x.isidentifier() for x in nm2)
+                    and fs2 in SCALES):
+                return "excluded"
+            fields2 = [[x, dt2 or (fields[j][1] if j < len(fields) else fields[0][1])] for j, x in enumerate(nm2)]
+            sh2 = stp.get("shapes") or cur["shapes"][:2]
+            n2 = int(stp.get("n") or n)
+            if n2 < 2 or len(sh2) != 2 or min(min(x) for x in sh2) < 1:
+                return "excluded"
+            shapes2 = [list(sh2[i % 2]) for i in range(n2)]
+            enc2_ = self.alloc(st, fields2, shapes2, fs2)
+            if enc2_ is None:
+                return "excluded"
+            if not self.stack_step(ctx, st, cur, {"op": "set_data", "fields": fields2, "layers": enc2_}):
+                return "excluded"
+            new = [make_layer(fields2, L["rows"], L["cols"], L["data"], fs2) for L in enc2_]
+            fs_old, st["fscale"] = st["fscale"], fs2
+            if stp.get("via") == "items" and n2 == n:
+                for i in range(n):
+                    laser.data[i] = new[i]
+                hfeats.add("history:setdata-itemwise")
+            else:
+                laser.data = new
+                hfeats.add("history:setdata-list")
+            if [f[0] for f in fields2] != names:
+                # other elements: the caller keeps the public calibration dict in step (SRRLaser.remove pops from it)
+                from pewlib.calibration import Calibration
+
+                laser.calibration = {x: Calibration() for x in nm2}
+            hfeats.add("history:setdata")
+            if [f[0] for f in fields2] != names:
+                hfeats |= {"history:setdata:names", "history:element-set-change"}
+            if sorted({f[1] for f in fields2}) != sorted({f[1] for f in fields}) or fs2 != fs_old:
+                hfeats.add("history:dtype-change")
+            if stp.get("shapes"):
+                hfeats.add("history:setdata:footprint")
+            if n2 != n:
+                hfeats.add("history:setdata:layers")
+        elif op == "append":
+            rows, cols = cur["shapes"][n - 2]
+            got = self.fresh_layer(st, fields, rows, cols, st["fscale"])
+            if got is None:
+                return "excluded"
+            if not self.stack_step(ctx, st, cur, {"op": "append", "layer": got[1]}):
+                return "excluded"
+            laser.data.append(got[0])
+            hfeats |= {"history:append-layer", "history:layer-count-change"}
+        elif op == "pop":
+            if n < 3:
+                return "excluded"
+            if not self.stack_step(ctx, st, cur, {"op": "pop"}):
+                return "excluded"
+            laser.data.pop()
+            hfeats |= {"history:pop-layer", "history:layer-count-change"}
+        elif op == "scribble":
+            # the caller writes into the arrays earlier reconstructions returned (as get(calibrate=True) does in place):
+            # neither the stack nor the configuration changes
+            for a in states[-1]["returned"]:
+                if not a.flags.writeable:
+                    continue
+                if a.dtype.names:
+                    for nm in a.dtype.names:
+                        a[nm][...] = 3
+                else:
+                    a[...] = 3
+            hfeats.add("history:scribble-on-returned-arrays")
+        elif op == "params":
+            # the three raster attributes assigned: another magnification (the warm-up stays what it is, in samples)
+            sp, v, t, M2 = float(stp["spotsize"]), float(stp["speed"]), float(stp["scantime"]), int(stp["mag"])
+            if not (sp > 0 and v > 0 and t > 0 and M2 >= 1 and sp / (v * t) == float(M2)):
+                return "excluded"
+            laser.config.spotsize, laser.config.speed, laser.config.scantime = sp, v, t
+            case2["ops"] = case2["ops"] + [cfg_op("params", spotsize=sp, speed=v, scantime=t)]
+            if M2 != case2["mag"]:
+                hfeats.add("history:magnification-change")
+            case2["params_now"], case2["mag"] = [sp, v, t], M2
+            hfeats.add("history:config-params")
+        elif op == "config":
+            pairs2 = [list(q) for q in stp["pairs"]]
+            case2["wmode"] = "exact"
+            # the driver is told what was DONE to the object (a new one, or the two setters); `pairs` only names the
+            # offset list the statement of offsets_setter_exact is evaluated for
+            if stp["via"] == "object":
+                p3 = case2.get("params_now") or [case2["spotsize"], case2["speed"], case2["scantime"]]
+                laser.config = make_srr_cfg({"spotsize": p3[0], "speed": p3[1], "scantime": p3[2], "pairs": pairs2, "warmup": stp["warmup"]})
+                case2["ops"] = case2["ops"] + [cfg_op("new", spotsize=p3[0], speed=p3[1], scantime=p3[2], warmup=stp["warmup"],
+                                                      pairs=pairs2)]
+            elif stp["via"] == "equal" and pairs2 == [[k, len(pairs2)] for k in range(len(pairs2))]:
+                laser.config.set_equal_subpixel_offsets(len(pairs2))
+                laser.config.warmup = stp["warmup"]
+                case2["ops"] = case2["ops"] + [cfg_op("equal", width=len(pairs2)), cfg_op("warmup", seconds=stp["warmup"])]
+            else:
+                laser.config.subpixel_offsets = [tuple(q) for q in pairs2]
+                laser.config.warmup = stp["warmup"]
+                case2["ops"] = case2["ops"] + [cfg_op("offsets", pairs=pairs2), cfg_op("warmup", seconds=stp["warmup"])]
+            case2["pairs_now"] = pairs2
+            hfeats.add("history:config-" + stp["via"])
+        else:
+            raise core.InternalError(f"unknown history step {op}")
+        return None
 
     # ------------------------------------------------------------------ the configuration alone
     def eval_cfg(self, case, ctx):
@@ -809,6 +1360,21 @@ class C09(Prop):
             for k, stp in enumerate(steps):
                 if stp["op"] == "edit" and stp["cells"] != "all" and len(stp["cells"]) > 1:
                     yield {**case, "steps": steps[:k] + [{**stp, "cells": stp["cells"][:1]}] + steps[k + 1:]}
+                if stp.get("obs"):
+                    yield {**case, "steps": steps[:k] + [{x: v for x, v in stp.items() if x != "obs"}] + steps[k + 1:]}
+                if stp["op"] == "rename" and len(stp["map"]) > 1:
+                    for q in range(len(stp["map"])):
+                        yield {**case, "steps": steps[:k] + [{**stp, "map": stp["map"][:q] + stp["map"][q + 1:]}] + steps[k + 1:]}
+                if stp["op"] == "remove" and len(stp["names"]) > 1:
+                    for q in range(len(stp["names"])):
+                        yield {**case, "steps": steps[:k] + [{**stp, "names": stp["names"][:q] + stp["names"][q + 1:]}] + steps[k + 1:]}
+                if stp["op"] == "setdata":
+                    for key in ("names", "dtype", "scale", "shapes", "n"):
+                        if key in stp:
+                            yield {**case, "steps": steps[:k] + [{x: v for x, v in stp.items() if x != key}] + steps[k + 1:]}
+        for key in ("base", "scale", "dtype"):
+            if key in case:
+                yield {x: v for x, v in case.items() if x != key}
         if case["n"] > 2:
             yield {**case, "n": case["n"] - 1}
         if case["nel"] > 1:
